@@ -1,2 +1,172 @@
-(** C16 - theorems under construction. *)
-From Coq Require Import ZArith.
+(** C16 - the result is a pure function of the bytes and the exponent (partial by nature: addresses,
+    stack residue and thread schedules cannot be expressed in Gallina - a Gallina function cannot
+    depend on them; those parts are decided by the harness: iterator shapes, stack poisoning,
+    16 threads on the real code).
+    What the model CAN carry is the iterator protocol.  model/Iter.v re-implements parse_number /
+    parse_mantissa / parse_float over an ABSTRACT cursor (a state type with next : St -> option Z * St,
+    nothing assumed after a None; Clone = a function on states), following the Rust call by call
+    (clone of clone for the fast pass, `integer.count()`, `for .. in &mut fraction { break }` followed by
+    `for .. in fraction`, the nested next() calls of parse_mantissa).  Proved (proofs/IterFacts.v, no
+    axioms): for ANY cursors whose integer side denotes the list i and whose fraction side denotes fr
+    and is fused (None forever after the first None), and any clone functions that preserve the
+    denotation, the cursor-level parser equals the list-level parse_float on (i, fr, e) - for all
+    bytes, configs, formats and builds; hence two iterator shapes denoting the same bytes give the
+    same result.  The fused hypothesis is NECESSARY, and the two places where the Rust calls next()
+    after a None are pinned down exactly ([nonfused_parse_number_differs]: empty integer, >= 20
+    fraction bytes all '0'); for every other input no fusedness is needed ([it_parse_float_nonfused]). *)
+
+From Coq Require Import ZArith List Bool.
+From ML Require Import base.RustSem model.Fmt model.Number model.Parse model.Slow model.Top model.Iter
+  gen.Consts gen.Tables gen.BTables gen.PowDump proofs.IterFacts.
+Import ListNotations.
+
+Open Scope Z_scope.
+
+Theorem C16_it_parse_float_general :
+  forall (St1 St2 : Type) (next1 : St1 -> option Z * St1) (next2 : St2 -> option Z * St2)
+           (P1 : St1 -> Prop) (P2 : St2 -> Prop) (c : config) (T : tables) (BT : btables) 
+           (L : limits) (f : format) (b : build) (cl1 : St1 -> St1) (cl2 : St2 -> St2) 
+           (fuel : nat) (s1 : St1) (s2 : St2) (i fr : list Z) (e : Z),
+         clone_ok next1 P1 cl1 ->
+         clone_ok next2 P2 cl2 ->
+         after_none_ok next2 P2 \/ safe_input i fr ->
+         denotes_gen next1 P1 s1 i ->
+         denotes_gen next2 P2 s2 fr ->
+         (length i < fuel)%nat ->
+         (length fr < fuel)%nat ->
+         it_parse_float_cl next1 next2 c T BT L f b fuel cl1 cl2 s1 s2 e = parse_float c T BT L f b i fr e.
+Proof. exact (@it_parse_float_general). Qed.
+
+Theorem C16_it_parse_float_fused :
+  forall (St1 St2 : Type) (next1 : St1 -> option Z * St1) (next2 : St2 -> option Z * St2) 
+           (c : config) (T : tables) (BT : btables) (L : limits) (f : format) (b : build) 
+           (fuel : nat) (s1 : St1) (s2 : St2) (i fr : list Z) (e : Z),
+         denotes next1 s1 i ->
+         denotes_fused next2 s2 fr ->
+         (length i < fuel)%nat ->
+         (length fr < fuel)%nat ->
+         it_parse_float next1 next2 c T BT L f b fuel s1 s2 e = parse_float c T BT L f b i fr e.
+Proof. exact (@it_parse_float_fused). Qed.
+
+Theorem C16_it_parse_float_fused_cursor :
+  forall (St1 St2 : Type) (next1 : St1 -> option Z * St1) (next2 : St2 -> option Z * St2) 
+           (c : config) (T : tables) (BT : btables) (L : limits) (f : format) (b : build) 
+           (fuel : nat) (s1 : St1) (s2 : St2) (i fr : list Z) (e : Z),
+         fused_cursor next2 ->
+         denotes next1 s1 i ->
+         denotes next2 s2 fr ->
+         (length i < fuel)%nat ->
+         (length fr < fuel)%nat ->
+         it_parse_float next1 next2 c T BT L f b fuel s1 s2 e = parse_float c T BT L f b i fr e.
+Proof. exact (@it_parse_float_fused_cursor). Qed.
+
+Theorem C16_it_parse_float_nonfused :
+  forall (St1 St2 : Type) (next1 : St1 -> option Z * St1) (next2 : St2 -> option Z * St2) 
+           (c : config) (T : tables) (BT : btables) (L : limits) (f : format) (b : build) 
+           (fuel : nat) (s1 : St1) (s2 : St2) (i fr : list Z) (e : Z),
+         i <> [] \/ Exists (fun x : Z => x <> 48) fr \/ (length fr <= 19)%nat ->
+         denotes next1 s1 i ->
+         denotes next2 s2 fr ->
+         (length i < fuel)%nat ->
+         (length fr < fuel)%nat ->
+         it_parse_float next1 next2 c T BT L f b fuel s1 s2 e = parse_float c T BT L f b i fr e.
+Proof. exact (@it_parse_float_nonfused). Qed.
+
+Theorem C16_iter_shape_independent :
+  forall (St1 St2 St1' St2' : Type) (next1 : St1 -> option Z * St1) (next2 : St2 -> option Z * St2)
+           (next1' : St1' -> option Z * St1') (next2' : St2' -> option Z * St2') (c : config) 
+           (T : tables) (BT : btables) (L : limits) (f : format) (b : build) (fuel fuel' : nat) 
+           (s1 : St1) (s2 : St2) (s1' : St1') (s2' : St2') (i fr : list Z) (e : Z),
+         denotes next1 s1 i ->
+         denotes_fused next2 s2 fr ->
+         denotes next1' s1' i ->
+         denotes_fused next2' s2' fr ->
+         (length i < fuel)%nat ->
+         (length fr < fuel)%nat ->
+         (length i < fuel')%nat ->
+         (length fr < fuel')%nat ->
+         it_parse_float next1 next2 c T BT L f b fuel s1 s2 e =
+         it_parse_float next1' next2' c T BT L f b fuel' s1' s2' e.
+Proof. exact (@iter_shape_independent). Qed.
+
+Theorem C16_clone_independent :
+  forall (St1 St2 : Type) (next1 : St1 -> option Z * St1) (next2 : St2 -> option Z * St2) 
+           (c : config) (T : tables) (BT : btables) (L : limits) (f : format) (b : build) 
+           (cl1 : St1 -> St1) (cl2 : St2 -> St2) (fuel : nat) (s1 : St1) (s2 : St2) 
+           (i fr : list Z) (e : Z),
+         clone_ok next1 (fun _ : St1 => True) cl1 ->
+         clone_ok next2 (exhausted next2) cl2 ->
+         denotes next1 s1 i ->
+         denotes_fused next2 s2 fr ->
+         (length i < fuel)%nat ->
+         (length fr < fuel)%nat ->
+         it_parse_number_fast next1 next2 b fuel (cl1 (cl1 s1)) (cl2 (cl2 s2)) e = parse_number_fast b i fr e /\
+         it_parse_number_rest next1 next2 b fuel (cl1 s1) (cl2 s2) e = parse_number_rest b i fr e /\
+         it_parse_mantissa next1 next2 c T L b fuel s1 s2 (MAX_DIGITS f) =
+         parse_mantissa c T L b i fr (MAX_DIGITS f) /\
+         it_parse_float_cl next1 next2 c T BT L f b fuel cl1 cl2 s1 s2 e =
+         it_parse_float next1 next2 c T BT L f b fuel s1 s2 e.
+Proof. exact (@clone_independent). Qed.
+
+Theorem C16_nonfused_parse_number_differs :
+  forall (b : build) (fr : list Z) (e : Z) (fuel : nat),
+         Forall (fun x : Z => x = 48) fr ->
+         (20 <= length fr)%nat ->
+         (length fr < fuel)%nat ->
+         denotes seg_next [fr; [49]] fr /\
+         (exists x : Z, parse_number b [] fr e = Ok {| nexp := x; nmant := 0; many := false |}) /\
+         (exists x : Z,
+            it_parse_number slice_next seg_next b fuel [] [fr; [49]] e =
+            Ok {| nexp := x; nmant := 1; many := false |}).
+Proof. exact nonfused_parse_number_differs. Qed.
+
+Theorem C16_fused_hypothesis_necessary :
+  exists (St2 : Type) (next2 : St2 -> option Z * St2) (s2 : St2) (fr : list Z),
+           denotes next2 s2 fr /\
+           (length fr < 64)%nat /\
+           it_parse_float slice_next next2 CFG_s TABLES BTABLES LIMITS F64 release_build 64 [] s2 0 <>
+           parse_float CFG_s TABLES BTABLES LIMITS F64 release_build [] fr 0.
+Proof. exact fused_hypothesis_necessary. Qed.
+
+Theorem C16_slice_denotes :
+  forall l : list Z, denotes_fused slice_next l l.
+Proof. exact slice_denotes. Qed.
+
+Theorem C16_slice_fused :
+  fused_cursor slice_next.
+Proof. exact slice_fused. Qed.
+
+Theorem C16_chain_denotes :
+  forall (Sa Sb : Type) (nexta : Sa -> option Z * Sa) (nextb : Sb -> option Z * Sb) 
+           (a : Sa) (la : list Z) (sb : Sb) (lb : list Z),
+         denotes nexta a la ->
+         denotes_fused nextb sb lb -> denotes_fused (chain_next nexta nextb) (Some a, sb) (la ++ lb).
+Proof. exact (@chain_denotes). Qed.
+
+Theorem C16_filter_denotes :
+  forall (skip : Z) (l : list Z),
+         denotes_fused (filter_next skip) l (filter (fun x : Z => negb (x =? skip)) l).
+Proof. exact filter_denotes. Qed.
+
+Theorem C16_it_parse_float_slice :
+  forall (c : config) (T : tables) (BT : btables) (L : limits) (f : format) 
+           (b : build) (i fr : list Z) (e : Z) (fuel : nat),
+         (length i < fuel)%nat ->
+         (length fr < fuel)%nat ->
+         it_parse_float slice_next slice_next c T BT L f b fuel i fr e = parse_float c T BT L f b i fr e.
+Proof. exact it_parse_float_slice. Qed.
+
+
+Print Assumptions C16_it_parse_float_general.
+Print Assumptions C16_it_parse_float_fused.
+Print Assumptions C16_it_parse_float_fused_cursor.
+Print Assumptions C16_it_parse_float_nonfused.
+Print Assumptions C16_iter_shape_independent.
+Print Assumptions C16_clone_independent.
+Print Assumptions C16_nonfused_parse_number_differs.
+Print Assumptions C16_fused_hypothesis_necessary.
+Print Assumptions C16_slice_denotes.
+Print Assumptions C16_slice_fused.
+Print Assumptions C16_chain_denotes.
+Print Assumptions C16_filter_denotes.
+Print Assumptions C16_it_parse_float_slice.
